@@ -35,10 +35,18 @@ def nameOrUnknown (t : List (Nat × String)) (k : Nat) : Name := (tblLookupIdx t
 
 def chunkPlural (k : ChunkKind) : String := k.tag ++ "s"
 
+/-- a string constant: the named constant where Lingo has one for exactly this string (QUOTE, RETURN, TAB, BACKSPACE, ENTER — their
+    characters cannot stand inside a string literal), else the literal (EMPTY is written `""`) -/
+def strToks (s : Name) : List Tok :=
+  if s = [] then [.str s] else
+  match nameOfConstant s with
+  | some c => [.id c]
+  | none => [.str s]
+
 mutual
 def prE : Expr → List Tok
   | .int n => [.num n]
-  | .str s => [.str s]
+  | .str s => strToks s
   | .float d s => [.flt d s]
   | .sym n => [.p .hash, .id n]
   | .var _ n => [.id n]
@@ -163,7 +171,13 @@ def printLingo (s : Script) : List Tok :=
 
 /-! ### tokens → text -/
 
-def natDigits (n : Nat) : List Char := (toString n).toList
+def digitChar (d : Nat) : Char := Char.ofNat (48 + d)
+
+/-- decimal digits of a number (most significant first), no leading zero -/
+def natDigits (n : Nat) : List Char :=
+  if h : n < 10 then [digitChar n] else natDigits (n / 10) ++ [digitChar (n % 10)]
+termination_by n
+decreasing_by omega
 
 def fltText (d s : Nat) : List Char :=
   let ds := natDigits d
@@ -179,9 +193,7 @@ def Tok.text : Tok → List Char
   | .id s => s
   | .num n => natDigits n
   | .flt d s => fltText d s
-  | .str s => match nameOfConstant s with
-    | some c => c
-    | none => '"' :: s ++ ['"']
+  | .str s => '"' :: s ++ ['"']
   | .p x => x.text.toList
   | .nl => ['\n']
 
